@@ -1,7 +1,11 @@
 package main
 
 import (
+	"fmt"
+
+	"verif/harness/eng"
 	"verif/harness/hist"
+	rc "verif/harness/refcodec"
 	"verif/harness/vk"
 )
 
@@ -88,4 +92,32 @@ func checkC07(c *vk.Ctx) {
 	c.MinEvents["rx_PUBACK"] = 300
 	c.MinEvents["rx_PUBCOMP"] = 100
 	c.MinEvents["publish_refused_topic"] = 20
+	c07Probes(c)
+}
+
+// directed probes: PUBREL variants (unknown id, failure reason code) must be answered with PUBCOMP.
+func c07Probes(c *vk.Ctx) {
+	for _, ver := range []byte{4, 5} {
+		b := eng.NewBroker(eng.Options{})
+		d, _ := dConnect(b, ver, "p", true, nil, nil)
+		// PUBREL for an id that was never used
+		r := d.send(&rc.Packet{Type: rc.PUBREL, PacketID: 77})
+		if hasType(r, rc.PUBCOMP) == nil && !d.closed() {
+			c.Violate("C07/no-response", map[string]string{"kind": "PUBCOMP", "pubrel": "unknown-id", "v5": fmt.Sprint(ver == 5)}, "PUBREL for unknown id 77 not answered", map[string]any{"version": ver})
+		}
+		c.Eval(vk.Hash("c07probe-unknown", ver), true)
+		if ver == 5 {
+			// QoS 2 publish, then PUBREL carrying reason 0x92
+			r = d.send(publishPkt("a", 2, 9, "x", false))
+			if hasType(r, rc.PUBREC) == nil {
+				c.Violate("C07/no-response", map[string]string{"kind": "PUBREC"}, "QoS 2 publish not answered", nil)
+			}
+			r = d.send(&rc.Packet{Type: rc.PUBREL, PacketID: 9, Reason: 0x92})
+			if hasType(r, rc.PUBCOMP) == nil && !d.closed() {
+				c.Violate("C07/no-response", map[string]string{"kind": "PUBCOMP", "pubrel": "failure-reason-code", "v5": "true"}, "PUBREL id 9 with reason 0x92 for an outstanding QoS 2 publish is not answered with PUBCOMP and the connection stays open", map[string]any{"sequence": "PUBLISH q2 id9; PUBREL id9 reason 0x92"})
+			}
+			c.Eval(vk.Hash("c07probe-reason", ver), true)
+		}
+		b.Shutdown()
+	}
 }
